@@ -16,6 +16,26 @@ def _needs_version(h, rel, recv):
     raise h.Missing(f"{rel}: cannot classify how load() treats an absent version row")
 
 
+def _cleared_by_store(h, rel, recv, var):
+    """true: store() clears the pending-changes counter as its last statement (after both writes
+    succeeded) and Prepare never clears it; false: Prepare clears it before calling store()."""
+    prep = h.func_body(rel, r"^func \(" + recv + r"\) Prepare\(", rel + " Prepare()")
+    store = h.func_body(rel, r"^func \(" + recv + r"\) store\(", rel + " store()")
+    clr = var + r"\.changes\s*=\s*0"
+    in_prep = re.search(clr, prep) is not None
+    at_end = re.search(clr + r"\s*\n\s*return\s+nil\s*$", store.rstrip()) is not None
+    n_store = len(re.findall(clr, store))
+    if not re.search(r"if\s+" + var + r"\.changes\s*(>\s*0|==\s*0)", prep):
+        raise h.Missing(f"{rel}: Prepare(): test of the changes counter not found")
+    if at_end and n_store == 1 and not in_prep:
+        return "true"
+    if in_prep and n_store == 0:
+        m = re.search(clr, prep)
+        if re.search(r"\.store\(", prep[m.end():]) and not re.search(r"\.store\(", prep[:m.start()]):
+            return "false"
+    raise h.Missing(f"{rel}: cannot classify where the changes counter is cleared (Prepare / store)")
+
+
 def _loop(h, rel, recv, fn, pat):
     body = h.func_body(rel, r"^func \(" + recv + r"\) " + fn + r"\(", rel + " " + fn)
     if not re.search(pat, body):
@@ -42,14 +62,25 @@ def collect(h):
 
     rel = BASE + "qnames/impl.go"
     items.append(("reg_qname_needs_version", "bool", _needs_version(h, rel, r"names \*QNames"), rel + " load()"))
+    items.append(("reg_qname_changes_cleared_by_store", "bool", _cleared_by_store(h, rel, r"names \*QNames", "names"), rel + " Prepare()/store()"))
     _loop(h, rel, r"names \*QNames", "collect", r"for\s+id\s*:=\s*names\.lastID\s*\+\s*1\s*;\s*id\s*<\s*MaxAvailableQNameID\s*;\s*id\+\+")
     h.find(rel, r"lastID:\s*istructs\.QNameIDSysLast\s*,", "qnames: initial lastID = QNameIDSysLast")
     rel = BASE + "containers/impl.go"
     items.append(("reg_cont_needs_version", "bool", _needs_version(h, rel, r"cnt \*Containers"), rel + " load()"))
+    items.append(("reg_cont_changes_cleared_by_store", "bool", _cleared_by_store(h, rel, r"cnt \*Containers", "cnt"), rel + " Prepare()/store()"))
     _loop(h, rel, r"cnt \*Containers", "collect", r"for\s+id\s*:=\s*cnt\.lastID\s*\+\s*1\s*;\s*id\s*<\s*MaxAvailableContainerID\s*;\s*id\+\+")
     h.find(rel, r"lastID:\s*ContainerNameIDSysLast\s*,", "containers: initial lastID = ContainerNameIDSysLast")
     rel = BASE + "singletons/impl.go"
     items.append(("reg_single_needs_version", "bool", _needs_version(h, rel, r"st \*Singletons"), rel + " load()"))
+    items.append(("reg_single_changes_cleared_by_store", "bool", _cleared_by_store(h, rel, r"st \*Singletons", "st"), rel + " Prepare()/store()"))
     _loop(h, rel, r"st \*Singletons", "collectSingleton", r"for\s+id\s*:=\s*st\.lastID\s*\+\s*1\s*;\s*id\s*<\s*istructs\.MaxSingletonID\s*;\s*id\+\+")
     h.find(rel, r"lastID:\s*istructs\.FirstSingletonID\s*-\s*1\s*,", "singletons: initial lastID = FirstSingletonID - 1")
+    # vers.Versions: Put caches the value before writing it; Prepare re-reads without clearing the cache
+    rel = BASE + "vers/impl.go"
+    body = h.func_body(rel, r"^func \(vers \*Versions\) Put\(", rel + " Put()")
+    if not re.search(r"vers\.vers\[key\]\s*=\s*value\s*\n\s*return\s+vers\.storage\.Put\(", body):
+        raise h.Missing(f"{rel}: Put(): `vers.vers[key] = value` followed by `return vers.storage.Put(` not found")
+    body = h.func_body(rel, r"^func \(vers \*Versions\) Prepare\(", rel + " Prepare()")
+    if re.search(r"make\(|clear\(|delete\(", body) or not re.search(r"vers\.vers\[key\]\s*=\s*val", body):
+        raise h.Missing(f"{rel}: Prepare(): expected a plain re-read of the version rows into the cache")
     return items
